@@ -3,9 +3,10 @@
    answers).  External code is universally quantified: [decode_rec] (kmsg
    Record.ReadFrom), [decompress]/[compress] (kgo), [crc32c], [hashf] (digests),
    [enc_env] (lfs.EncodeEnvelope); the two round-trip laws used by C31_batch_valid are
-   explicit premises.  Level: partial — the step from the rewritten bytes back to records
-   goes through those oracles, and the composition over the partitions of a request is
-   by the state-extension lemma only (see checks/C31.py).  Proofs: proofs/RewriteProofs.v. *)
+   explicit premises.  Level: partial — the step from a rewritten batch's payload back to
+   records goes through those oracles (C31_batch_redecodes); everything else, including
+   the lift to the whole request and the join/split of several batches per partition
+   (C31_whole_request, C31_whole_request_resplit), is proved outright.  Proofs: proofs/RewriteProofs.v. *)
 From KS Require Import lib.Base lib.RecVarint model.Rewrite proofs.RewriteProofs.
 Open Scope Z_scope.
 
@@ -83,6 +84,42 @@ Theorem C31_batch_redecodes :
      (b_attrs b') mod 8 = (b_attrs b) mod 8 /\ batch_records decode_rec decompress b' = Some rs').
 Proof. exact rewritten_batch_decodes. Qed.
 Print Assumptions C31_batch_redecodes.
+
+(* (4) The whole request.  [rewrite_request] runs over all partitions of all topics in
+   request order.  If it returns without error then, with respect to the object store at
+   the END of the request, every input partition [p] and output partition [p'] satisfy
+   [partition_ok]: [p] splits (lfsDecodeRecordBatches) into batches [bts], [p'] is the
+   concatenation of the Raw bytes of batches [bts'] (same number, same order), and every pair
+   satisfies [batch_ok]:
+     - its records (as decoded by the proxy) are related by [rec_rel]: unflagged records
+       identical, flagged records as in (2), same count and order          (clauses 1 and 2)
+     - the batch is either returned as is (Raw bytes identical, and then it has no flagged
+       record) or [rebuilt]: kmsg encoding of the same header with Length = len - 12,
+       CRC = crc32c(bytes[21:]), codec bits, NumRecords = number of records, payload =
+       compress(codec, encode(records'))                                    (clause 3). *)
+Theorem C31_whole_request :
+  forall decode_rec decompress compress crc32c hashf enc_env cfg ps st ps' st' ch,
+  rewrite_request decode_rec decompress compress crc32c hashf enc_env cfg st ps = Ok (ps', st', ch) ->
+  NoDup (map fst (u_supply st)) ->
+  Forall2 (partition_ok decode_rec decompress compress crc32c hashf enc_env cfg (u_store st')) ps ps'.
+Proof.
+  intros. eapply request_ok; eauto. apply ext_refl.
+Qed.
+Print Assumptions C31_whole_request.
+
+(* ... and each rewritten partition splits again (same lfsDecodeRecordBatches, kmsg header
+   layout) into exactly the batches [bts'] above — several batches per partition, rewritten
+   and untouched ones mixed — provided the input headers are within the ranges of their Go
+   types and no batch reaches 2 GiB. *)
+Theorem C31_whole_request_resplit :
+  forall decode_rec decompress compress crc32c hashf enc_env cfg store p bts bts',
+  split_batches (S (length p)) p = Some bts ->
+  Forall2 (batch_ok decode_rec decompress compress crc32c hashf enc_env cfg store) bts bts' ->
+  Forall (fun bt => hdr_in_range (fst bt)) bts ->
+  Forall (fun bt' => zlen (snd bt') - 12 < 2147483648) bts' ->
+  split_batches (S (length (join_batches bts'))) (join_batches bts') = Some bts'.
+Proof. exact partition_resplit. Qed.
+Print Assumptions C31_whole_request_resplit.
 
 (* non-vacuity: a batch [unflagged; flagged; unflagged] is rewritten; the middle value
    becomes the envelope, the others are untouched, one object is stored *)
